@@ -34,6 +34,10 @@ def cases(run: Run):
         })
         out[-1]["steps"] = out[-1]["outk"] * max(1, out[-1]["steps"] // out[-1]["outk"])  # the run ends on a save
     out.extend(mixed_outcome_cases(rng))
+    # one sensor alternating between two targets over several steps (stalest first): what it reports in a step replaces what it reported before,
+    # from a higher target id to a lower one as well
+    out.append({"ns": 1, "nt": 2, "decision": "MyopicNaiveGreedyDecision", "steps": 4, "displace": [False, False], "slow": [False], "narrow": False,
+                "seed": rng.randint(1, 10**6), "orders": [rng.randint(1, 999)], "bg": False, "wide": False, "sid0": False, "outk": 1})
     # one sensor reporting the same target from several of its jobs in a step: all-visible policy, wide cones, serendipitous observations on
     out.append({"ns": rng.randint(1, 2), "nt": rng.randint(2, 3), "decision": "AllVisibleDecision", "steps": 3, "displace": [False] * 3, "slow": [False] * 2, "narrow": False,
                 "seed": rng.randint(1, 10**6), "orders": rng.sample(range(1, 1000), 2), "bg": True, "wide": True, "sid0": False})
